@@ -15,6 +15,8 @@ CONSTANTS
   SnOff <- SnOff00
   ClkOff = 0
   Drive = "tick"
+  HealEnabled = FALSE
+  ReaderPaused <- NoPause
   Forged <- NoForged
 INVARIANTS Prefix MsgPrefix WindowDiscipline TruthfulWnd OutSizeOK AdmitBelowWindow NoAdmitAfterLoss
 PROPERTIES UnaMonotone
